@@ -243,7 +243,23 @@ def mphys_groups(rep, tier, timeout):
         nat = sum((ns["mtx"][r, c] * gam[c] for c in range(npan)), ZERO) - ns["rhs"][r]
         obs.append(oblig.Ob("wrapper residual[%d]" % r, lhs=S(R[r]), rhs=nat, meta={"family": "MPhys solver group solves the native VLM system"}))
     for x in ss:
-        obs += idents("wrapper %s sec_forces" % x["name"], GP.get(x["name"] + ".sec_forces") if (x["name"] + ".sec_forces") in created else GP.get(x["name"] + "_sec_forces"),
+        try:
+            got = GP.get(x["name"] + ".sec_forces") if (x["name"] + ".sec_forces") in created else GP.get(x["name"] + "_sec_forces")
+        except KeyError:
+            # the wrapper does not hand the sectional forces of this surface out at all: confirm on the real set-up group
+            rep.counts["obligations"] += 1
+            rep.counts["nontrivial"] += 1
+            rep.counts["candidates"] += 1
+            outs = {prob.model._resolver.abs2prom(a, "output") for a in prob.model._var_allprocs_abs2meta["output"]}
+            want = [x["name"] + ".sec_forces", x["name"] + "_sec_forces"]
+            if not any(w in outs for w in want):
+                rep.violation("MPhys: the solver group hands out the sectional forces of every surface",
+                              "surface %s: none of %s is an output of the MPhys solver group (outputs: %s)" % (x["name"], want, sorted(o for o in outs if "sec_forces" in o)),
+                              {"group": "MPhys AeroSolverGroup vs native states", "surface": x["name"], "structural": True})
+            else:
+                rep.not_reproduced.append({"id": "wrapper %s sec_forces" % x["name"], "why": "symbolic pipe did not find the output, the real group has it"})
+            continue
+        obs += idents("wrapper %s sec_forces" % x["name"], got,
                       ns[x["name"] + "_sec_forces"], meta={"family": "MPhys solver group returns the native sectional forces"})
     run_obligations(rep, "MPhys AeroSolverGroup vs native states", obs, timeout, levels=(1, 2), family=lambda ob: "MPhys: " + ob.meta["family"])
 
@@ -429,6 +445,13 @@ def replay_mphys(ss, compressible=False):
     vals = {"alpha": 4.0, "beta": 0.0, "v": 60.0, "rho": 1.0, "Mach_number": 0.3, "re": 1e6}
     from openaerostruct.mphys.utils import get_node_indices
 
+    # the symbolic surfaces may sit on top of each other; the float models need distinct lifting surfaces
+    import copy
+
+    ss = [copy.deepcopy(s_) for s_ in ss]
+    for k_, s_ in enumerate(ss):
+        s_["mesh"] = s_["mesh"] + np.array([4.0 * k_, 0.0, 0.7 * k_])
+
     prob, FV, MV = mphys_scenario_problem(ss, compressible=compressible, vals=vals)
     nat = groups.aeropoint_problem(ss, compressible=compressible, vals=vals)
     nat.run_model()
@@ -443,17 +466,19 @@ def replay_mphys(ss, compressible=False):
         prob.run_model()
     except Exception as e:
         return True, "; ".join(bad + ["the MPhys scenario fails (%s) where the native AeroPoint runs" % (str(e)[-90:],)])
+    if not np.all(np.isfinite(np.asarray(nat.get_val("aero_point_0.CL"), dtype=float))):
+        return None, "the native reference model does not give finite coefficients at the replay point"
     for s in ss:
         n = s["name"]
         for q in ("CL", "CD"):
             a = float(prob.get_val("aero_point_0.%s.%s" % (n, q))[0])
             b = float(nat.get_val("aero_point_0.%s_perf.%s" % (n, q))[0])
-            if model.differs(a, b, 1e-8):
+            if not np.isfinite(a) or model.differs(a, b, 1e-8):
                 bad.append("%s %s: MPhys %.9g, native %.9g" % (n, q, a, b))
     for q in ("CL", "CD", "CM"):
         a = np.asarray(prob.get_val("aero_point_0.%s" % q), dtype=float).ravel()
         b = np.asarray(nat.get_val("aero_point_0.%s" % q), dtype=float).ravel()
-        if np.abs(a - b).max() > 1e-8 * max(1.0, np.abs(b).max()):
+        if not np.all(np.isfinite(a)) or np.abs(a - b).max() > 1e-8 * max(1.0, np.abs(b).max()):
             bad.append("total %s: MPhys %s, native %s" % (q, a, b))
     return bool(bad), "; ".join(bad[:4]) or "MPhys scenario and native AeroPoint agree on all coefficients"
 
